@@ -21,6 +21,8 @@ type Prop struct {
 	// Sharded properties are explored by NumCPU single-threaded worker processes (token passing
 	// between goroutines scales badly across OS threads).
 	Sharded bool
+	// Init runs once per process before anything else (process-wide environment).
+	Init func(verifDir string)
 }
 
 var registry = map[string]*Prop{}
